@@ -181,13 +181,8 @@ impl GenericsAnalyzer {
                 if type_path.qself.is_some() {
                     return Err(syn::Error::new(type_path.span(), "No self allowed"));
                 }
-                if type_path.path.leading_colon.is_some() {
-                    return Err(syn::Error::new(
-                        type_path.span(),
-                        "No leading colon allowed",
-                    ));
-                }
-                if type_path.path.segments.len() != 1 {
+                // An absolute path (`::krate::Type`) never names a generic parameter
+                if type_path.path.leading_colon.is_some() || type_path.path.segments.len() != 1 {
                     return self.deps_with_generics(
                         FnDeps::Concrete(Box::new(ty.clone())),
                         &input_sig.generics,
